@@ -51,7 +51,7 @@ static bool advance(Sched& s, int t, long c) {
     std::unique_lock<std::mutex> lk(s.m);
     s.budget[t] += c;
     s.cv.notify_all();
-    const bool ok = s.cv.wait_for(lk, std::chrono::seconds(10), [&] { return s.done[t] || (s.blocked[t] && s.budget[t] == 0); });
+    const bool ok = s.cv.wait_for(lk, std::chrono::seconds(60), [&] { return s.done[t] || (s.blocked[t] && s.budget[t] == 0); });
     if (!ok) {
         s.diverged = true;
         for (int i = 0; i < Sched::NT; ++i) {
@@ -725,7 +725,7 @@ static void replay_schedules(Json& js, vh::Rng& rng, const char* file) {
         }
         // wait until t is parked at a solve gate or finished (or, if at_yield, blocked at a scratch yield with no budget)
         auto park = [&](int t, bool at_yield) {
-            for (int spin = 0; spin < 200000; ++spin) {
+            for (int spin = 0; spin < 1200000; ++spin) {   // 60 s: a loaded machine must not look like a blocked schedule
                 {
                     std::unique_lock<std::mutex> lk(g.m);
                     if (g.waiting[t]) {
@@ -809,6 +809,9 @@ static void replay_schedules(Json& js, vh::Rng& rng, const char* file) {
             for (int c = 0; c < calls[t]; ++c) {
                 js.begin("Result").num("t", t + 1).num("c", c).boolean("ok", close_c(y[t][c], ref[t][c], n)).boolean("diverged", diverged).end();
             }
+        }
+        if (diverged) {
+            break;   // reported once; do not spend a minute per remaining schedule
         }
     }
     std::fclose(in);
